@@ -229,6 +229,12 @@ func genC19(g *Rng, tier string, emit func(Op)) {
 			}
 		}
 	}
+	// modsqrt with the factor 4 on small (also negative) arguments
+	for a := -40; a < 200; a++ {
+		emit(Op{"op": "modsqrt", "class": "exh4", "a": hxi(int64(a)), "factors": hxs([]*big.Int{bi(4), bi(5), bi(13)})})
+		emit(Op{"op": "modsqrt", "class": "exh4", "a": hxi(int64(a)), "factors": hxs([]*big.Int{bi(4), bi(7)})})
+		emit(Op{"op": "modsqrt", "class": "exh", "a": hxi(int64(a)), "factors": hxs([]*big.Int{bi(3), bi(11)})})
+	}
 	// crt small exhaustive
 	for pa := 1; pa < 14; pa++ {
 		for pb := 1; pb < 14; pb++ {
@@ -278,6 +284,7 @@ func genC19(g *Rng, tier string, emit func(Op)) {
 				t3.Mul(t3, t3).Mod(t3, n4)
 				emit(Op{"op": "modsqrt", "class": "rand-square4", "a": hx(t3), "factors": hxs([]*big.Int{bi(4), p, q})})
 				emit(Op{"op": "modsqrt", "class": "rand4", "a": hx(g.below(n4)), "factors": hxs([]*big.Int{bi(4), p, q})})
+				emit(Op{"op": "modsqrt", "class": "rand4-neg", "a": hx(new(big.Int).Neg(g.below(n4))), "factors": hxs([]*big.Int{bi(4), p, q})})
 			}
 		}
 		if i%3 == 0 {
